@@ -28,6 +28,9 @@ func runC10(c *an.Ctx) {
 	// without end timestamps
 	c.As(map[string]string{"R01c": "R10f"}, func() { r01c(c) })
 	r10g(c)
+	// round 7: shared with C01 (a failed requested transition ends the run through GO_ERROR) and C14 (run variables are user-rank variables of the root)
+	c.As(map[string]string{"R01f": "R10h"}, func() { r01f(c) })
+	c.As(map[string]string{"R14a": "R10i"}, func() { r14a(c) })
 }
 
 // R10g: "values of a previous run are never visible in the next": the run variables handed to the tasks with START are
@@ -91,7 +94,7 @@ type varWrite struct {
 	meth  string
 }
 
-// runVarWrites: every SetRuntimeVar / Set / Del with a constant key among keys, in fns.
+// runVarWrites: every SetRuntimeVar / Set / Del / DeleteRuntimeVar(s) with a constant key among keys, in fns.
 func runVarWrites(fns []*ssa.Function, keys map[string]bool) []varWrite {
 	var out []varWrite
 	for _, f := range fns {
@@ -101,7 +104,7 @@ func runVarWrites(fns []*ssa.Function, keys map[string]bool) []varWrite {
 				return
 			}
 			m := an.MethodName(ci.Common())
-			if m != "SetRuntimeVar" && m != "Set" && m != "Del" {
+			if m != "SetRuntimeVar" && m != "Set" && m != "Del" && m != "DeleteRuntimeVar" && m != "DeleteRuntimeVars" && m != "DeleteGlobalRuntimeVar" && m != "DeleteGlobalRuntimeVars" {
 				return
 			}
 			a := an.Args(ci.Common())
